@@ -16,7 +16,7 @@ Definition tkey_eqb (a b: tkey) : bool :=
   | _, _ => false end.
 
 (* encoder classes (nearest modelled ancestor in the MRO) *)
-Inductive enc_codec := EcEoo | EcBoolBer | EcBoolCer | EcInt | EcBits | EcOcts | EcNull | EcOid
+Inductive enc_codec := EcEoo | EcBoolBer | EcBoolCer | EcInt | EcBits | EcBitsCer | EcOcts | EcNull | EcOid
   | EcRealBer | EcRealCer | EcSeq | EcSeqOfBer | EcSeqOfCer | EcSetOfCer | EcSetCer | EcSetDer
   | EcChoice | EcAny | EcGenTime | EcUtcTime.
 
